@@ -222,6 +222,22 @@ fn conn_key(x: &str, per_host: bool) -> String {
     }
 }
 
+/// dispatch the given traces, one thread per trace (one trace: the calling thread)
+fn feed(dispatch: &(dyn Fn(Vec<u8>) -> bool + Sync), traces: &[Vec<Vec<u8>>]) -> Result<(), String> {
+    let ok = if traces.len() == 1 {
+        traces[0].iter().all(|f| dispatch(f.clone()))
+    } else {
+        std::thread::scope(|sc| {
+            let hs: Vec<_> = traces.iter().map(|t| sc.spawn(move || t.iter().all(|f| dispatch(f.clone())))).collect();
+            hs.into_iter().map(|h| h.join().unwrap_or(false)).fold(true, |a, b| a && b)
+        })
+    };
+    if ok {
+        Ok(())
+    } else {
+        Err("dropped although the queue cannot overflow".into())
+    }
+}
 fn pools(r: &mut Report, thorough: bool) {
     huginn_net_tcp::uptime::verif_clock::set_global(T0);
     let trace = interleave(&conn_frames());
@@ -247,9 +263,15 @@ fn pools(r: &mut Report, thorough: bool) {
         return;
     }
     let worker_counts: Vec<usize> = if thorough { (1..=16).collect() } else { vec![1, 2, 3, 4, 7, 8, 16] };
+    // two dispatcher threads (`dispatch` takes &self, the pools are handed out behind an Arc): each feeds the connections of
+    // one half of the trace, in order
+    let halves: Vec<Vec<Vec<u8>>> = {
+        let conns = conn_frames();
+        (0..2).map(|h| interleave(&conns.iter().enumerate().filter(|(i, _)| i % 2 == h).map(|(_, c)| c.clone()).collect::<Vec<_>>())).collect()
+    };
     for &w in &worker_counts {
         for batch in [1usize, 2, 32] {
-            for timeout in [1u64, 10] {
+            for (timeout, dispatchers) in [(1u64, 1usize), (10, 1), (1, 2)] {
                 for pool in ["tcp", "http", "tls"] {
                     r.exec(trace.len() as u64);
                     let res = guarded(|| -> Result<Vec<String>, String> {
@@ -257,39 +279,27 @@ fn pools(r: &mut Report, thorough: bool) {
                             "tcp" => {
                                 let (tx, rx) = std::sync::mpsc::channel();
                                 let p = huginn_net_tcp::WorkerPool::new(w, trace.len() + 1, batch, timeout, tx, Some(d.clone()), 1000, None).map_err(|e| e.to_string())?;
-                                for f in &trace {
-                                    if p.dispatch(f.clone()) != huginn_net_tcp::DispatchResult::Queued {
-                                        return Err("dropped although the queue cannot overflow".into());
-                                    }
-                                }
+                                feed(&|f| p.dispatch(f) == huginn_net_tcp::DispatchResult::Queued, if dispatchers == 1 { std::slice::from_ref(&trace) } else { &halves })?;
                                 drop(p);
                                 Ok(rx.iter().map(|x| tcp_res(&x)).filter(|x| !x.is_empty()).map(|x| format!("{x:?}")).collect())
                             }
                             "http" => {
                                 let (tx, rx) = std::sync::mpsc::channel();
                                 let p = huginn_net_http::WorkerPool::new(w, trace.len() + 1, batch, timeout, tx, Some(d.clone()), 1000, None).map_err(|e| e.to_string())?;
-                                for f in &trace {
-                                    if p.dispatch(f.clone()) != huginn_net_http::DispatchResult::Queued {
-                                        return Err("dropped although the queue cannot overflow".into());
-                                    }
-                                }
+                                feed(&|f| p.dispatch(f) == huginn_net_http::DispatchResult::Queued, if dispatchers == 1 { std::slice::from_ref(&trace) } else { &halves })?;
                                 drop(p);
                                 Ok(rx.iter().map(|x| http_res(&x)).filter(|x| !x.is_empty()).map(|x| format!("{x:?}")).collect())
                             }
                             _ => {
                                 let (tx, rx) = std::sync::mpsc::channel();
                                 let p = huginn_net_tls::WorkerPool::new(w, trace.len() + 1, batch, timeout, tx, 1000, None).map_err(|e| e.to_string())?;
-                                for f in &trace {
-                                    if p.dispatch(f.clone()) != huginn_net_tls::DispatchResult::Queued {
-                                        return Err("dropped although the queue cannot overflow".into());
-                                    }
-                                }
+                                feed(&|f| p.dispatch(f) == huginn_net_tls::DispatchResult::Queued, if dispatchers == 1 { std::slice::from_ref(&trace) } else { &halves })?;
                                 drop(p);
                                 Ok(rx.iter().map(|x| tls_out(&x)).map(|x| format!("{x:?}")).collect())
                             }
                         }
                     });
-                    let cfg = json!({"kind": "pool", "pool": pool, "workers": w, "batch": batch, "timeout_ms": timeout});
+                    let cfg = json!({"kind": "pool", "pool": pool, "workers": w, "batch": batch, "timeout_ms": timeout, "dispatcher_threads": dispatchers});
                     let got = match res {
                         Err(p) => {
                             r.dev(format!("C10/pool/{pool}/panic"), "panic", || json!({"config": cfg, "detail": p}));
@@ -317,6 +327,10 @@ fn pools(r: &mut Report, thorough: bool) {
                         continue;
                     }
                     let per_host = pool == "tcp";
+                    if dispatchers > 1 && per_host {
+                        // two connections of the trace share a client address: their relative order is the dispatchers' race
+                        continue;
+                    }
                     let mut keys: Vec<String> = seq.iter().map(|x| conn_key(x, per_host)).collect();
                     keys.sort();
                     keys.dedup();
@@ -668,7 +682,7 @@ pub fn run(thorough: bool) -> Outcome {
     budget_route(&mut r);
     Outcome {
         report: r,
-        rule: "routing: every ordered same-family pair of 144 endpoints (12 IPv4 + 6 IPv6 addresses with all bytes varied x 8 ports), raw and Ethernet, x worker counts: SYN, SYN+ACK, request, response, further segment and FIN of a connection on one HTTP worker; all client segments on one TLS worker; everything a host sends on one TCP worker. pools: a 13-connection interleaved trace (one connection with 40 bytes of IPv4 options and 40 bytes of TCP options on every frame incl. data segments, and a 9000-byte response) through real TCP / HTTP / TLS pools for worker counts x batch {1,2,32} x timeout {1,10} ms (schedules sampled, not enumerated) compared with the sequential analyzers as multiset and per connection / sender order; configured route: with_config + init_pool + worker_pool of each analyzer with 12 simultaneously open connections, queue size 4, capacity 64 (TCP: timestamped SYN and ACK one second apart under the injected clock), lock-step dispatch with two real pauses of eight worker receive timeouts while connections are half delivered, results equal to the sequential analyzer; pcap route: with_config (+ init_pool) + analyze_pcap of each analyzer on the 12-connection trace written to a capture file, queue larger than the trace, worker counts x batch {1,2,32} x timeout {1,10} ms x repeated rounds (schedules sampled), results equal as a multiset to the same analyzer's sequential analyze_pcap; budget route: 4 connections that the tree's hash sends to one worker, open at the same time, max_connections = 4, workers {2,4,16}: parallel mode (HTTP / TLS through analyze_pcap incl. the pool the TLS analyzer builds itself, TCP lock-step under the injected clock) equals sequential; distinct = distinct routing / delivery outcomes".into(),
+        rule: "routing: every ordered same-family pair of 144 endpoints (12 IPv4 + 6 IPv6 addresses with all bytes varied x 8 ports), raw and Ethernet, x worker counts: SYN, SYN+ACK, request, response, further segment and FIN of a connection on one HTTP worker; all client segments on one TLS worker; everything a host sends on one TCP worker. pools: a 13-connection interleaved trace (one connection with 40 bytes of IPv4 options and 40 bytes of TCP options on every frame incl. data segments, and a 9000-byte response) through real TCP / HTTP / TLS pools for worker counts x batch {1,2,32} x timeout {1,10} ms, fed by one dispatcher thread and by two (each one half of the connections) (schedules sampled, not enumerated) compared with the sequential analyzers as multiset and per connection / sender order; configured route: with_config + init_pool + worker_pool of each analyzer with 12 simultaneously open connections, queue size 4, capacity 64 (TCP: timestamped SYN and ACK one second apart under the injected clock), lock-step dispatch with two real pauses of eight worker receive timeouts while connections are half delivered, results equal to the sequential analyzer; pcap route: with_config (+ init_pool) + analyze_pcap of each analyzer on the 12-connection trace written to a capture file, queue larger than the trace, worker counts x batch {1,2,32} x timeout {1,10} ms x repeated rounds (schedules sampled), results equal as a multiset to the same analyzer's sequential analyze_pcap; budget route: 4 connections that the tree's hash sends to one worker, open at the same time, max_connections = 4, workers {2,4,16}: parallel mode (HTTP / TLS through analyze_pcap incl. the pool the TLS analyzer builds itself, TCP lock-step under the injected clock) equals sequential; distinct = distinct routing / delivery outcomes".into(),
         exhaustive: true,
         bounds: json!({"endpoints": endpoints().len(), "note": "the pool part samples schedules; schedule coverage comes from the loom engine"}),
     }
